@@ -36,7 +36,15 @@ func (c *Ctx) Sim(name string, op Op, env *Env) *Outcome {
 	if c.keepTrace {
 		c.lastTrace = out.Trace
 	}
-	if out.BubbleErr != "" && !env.AllowBubbleErr && !out.Hang && len(out.Leaks) == 0 && len(out.Panics) == 0 {
+	if out.Tampered != "" {
+		c.Failf(c.Prop+":callers-slice-modified:"+op.Kind, "%s: %s", op, out.Tampered)
+	}
+	if out.BubbleErr != "" && env.Ctx.Mode == "own" && !out.Hang && len(out.Leaks) == 0 && len(out.Panics) == 0 {
+		// every task of the simulator has finished and yet goroutines of the bubble remain:
+		// started by code the instrumenter does not see (package context watching the caller's
+		// own context type)
+		out.Untracked = 1
+	} else if out.BubbleErr != "" && !env.AllowBubbleErr && !out.Hang && len(out.Leaks) == 0 && len(out.Panics) == 0 {
 		// the bubble failed for a reason the simulator does not understand: never a verdict
 		panic(fmt.Sprintf("bubble error without hang/leak/panic: %s", out.BubbleErr))
 	}
@@ -51,6 +59,9 @@ func (c *Ctx) Direct(op Op, env *Env) *Outcome {
 	out := Exec(op, env)
 	c.st.Count("direct.runs")
 	c.countFaults(out)
+	if out.Tampered != "" {
+		c.Failf(c.Prop+":callers-slice-modified:"+op.Kind, "%s: %s", op, out.Tampered)
+	}
 	return out
 }
 
